@@ -364,3 +364,62 @@ Example two_hop_example :
   out_of (cstep (st_of (cstep sB0 (CReq 9 2 4 [4] 11))) (CResp 4 1 99)) = [(9, MResp 2 true 99)] /\
   out_of (cstep (st_of (cstep sA0 (CReq 1 7 4 [8; 4] 11))) (CResp 8 2 99)) = [(1, MResp 7 true 99)].
 Proof. vm_compute. repeat split; reflexivity. Qed.
+
+(** ** chains of any length.  A hop is a transit with its history before the
+    request ([h_evs0]), what it does between forwarding the request and
+    getting the answer ([h_evs], anything but an answer under its id), and
+    the id [h_fid] under which it forwarded.  [chain src oid target path tag
+    hops] says that the request of [src] (id [oid]) is forwarded by the first
+    hop, that the frame it emits is addressed to the second hop and is the
+    request event the second hop handles, and so on. *)
+Record hop := mkhop { h_me : N; h_evs0 : list cevent; h_evs : list cevent; h_fid : N }.
+
+Definition hop_s0 (x : hop) : cstate := crun_state (cinit (h_me x)) (h_evs0 x).
+Definition hop_s2 (x : hop) (e : cevent) : cstate := crun_state (st_of (cstep (hop_s0 x) e)) (h_evs x).
+
+Inductive chain : N -> N -> N -> list N -> N -> list hop -> Prop :=
+| chain_nil : forall src oid target path tag, chain src oid target path tag []
+| chain_cons : forall src oid target path tag x nxt rest hops,
+    out_of (cstep (hop_s0 x) (CReq src oid target path tag)) = [(nxt, MReq (h_fid x) target rest tag)] ->
+    (forall f t, ~ In (CResp f (h_fid x) t) (h_evs x)) ->
+    (match hops with y :: _ => h_me y = nxt | [] => True end) ->
+    chain (h_me x) (h_fid x) target rest tag hops ->
+    chain src oid target path tag (x :: hops).
+
+(** what each hop does with the answer: send it to the previous hop (or the
+    requester) under that one's id, to nobody else, to no local caller; the
+    remaining path is threaded through the chain *)
+Inductive answers : N -> N -> N -> list N -> N -> N -> list hop -> Prop :=
+| answers_nil : forall src oid target path tag rtag, answers src oid target path tag rtag []
+| answers_cons : forall src oid target path tag rtag x rest hops,
+    (forall from,
+       let res := cstep (hop_s2 x (CReq src oid target path tag)) (CResp from (h_fid x) rtag) in
+       out_of res = cemit (st_of res) src (MResp oid true rtag) /\ deliv_of res = []) ->
+    answers (h_me x) (h_fid x) target rest tag rtag hops ->
+    answers src oid target path tag rtag (x :: hops).
+
+Theorem chain_answers : forall src oid target path tag hops rtag,
+  chain src oid target path tag hops -> answers src oid target path tag rtag hops.
+Proof.
+  intros src oid target path tag hops rtag H.
+  induction H as [src oid target path tag | src oid target path tag x nxt rest hops Hout Hno Hnext Hch IH].
+  - constructor.
+  - apply answers_cons with (rest := rest); [|exact IH].
+    intros from. unfold hop_s2, hop_s0.
+    exact (request_response_roundtrip (h_evs0 x) (h_me x) src oid target path tag nxt (h_fid x) rest (h_evs x) from rtag Hout Hno).
+Qed.
+
+(** non-vacuity: 1 asks 4 through 9, 8 and 7 (three transits) *)
+Definition hop9 := mkhop 9 [CConnect 1; CConnect 8; COriginate 8 5] [COriginate 8 6; CCancel 1] 2.
+Definition hop8 := mkhop 8 [CConnect 9; CConnect 7] [CReq 9 77 7 [7] 3] 1.
+Definition hop7 := mkhop 7 [CConnect 8; CConnect 4; COriginate 4 1; COriginate 4 2] [] 3.
+
+Example three_hop_chain : chain 1 7 4 [8; 7; 4] 11 [hop9; hop8; hop7].
+Proof.
+  apply chain_cons with (nxt := 8) (rest := [7; 4]); [vm_compute; reflexivity | | reflexivity |].
+  { intros f t [H|[H|[]]]; discriminate H. }
+  apply chain_cons with (nxt := 7) (rest := [4]); [vm_compute; reflexivity | | reflexivity |].
+  { intros f t [H|[]]; discriminate H. }
+  apply chain_cons with (nxt := 4) (rest := []); [vm_compute; reflexivity | | exact I | constructor].
+  intros f t [].
+Qed.
